@@ -11,6 +11,7 @@ import BB.Oracle.Retry
 import BB.Oracle.Callable
 import BB.Oracle.Notifier
 import BB.Oracle.Ctx
+import BB.Oracle.Workers
 
 open BB.Oracle
 
@@ -21,7 +22,8 @@ def families : List (String × Fam) := [
   ("retry", RetryFam.fam),
   ("callable", CallableFam.fam),
   ("notifier", NotifierFam.fam),
-  ("ctx", CtxFam.fam)
+  ("ctx", CtxFam.fam),
+  ("workers", WorkersFam.fam)
 ]
 
 structure OAcc (σ : Type) where
